@@ -37,6 +37,21 @@ CLAIMED = {
          'calls leave both objects untouched; after conversion to ZIN the object is a clean 1 x ports object.',
     note='Trusted: clang, ll2c, CBMC; kernels are replaced by recording stubs generated from vnaconv.h (their numeric content is C04); the oracle table is derived from function names and vnadata(3).',
     design='DESIGN.md section 4 / C05'),
+ 'C07': dict(
+    technique='bounded symbolic model checking of the real number formatting of vnacal_save.c: clang-14 IR -> ll2c -> CBMC 6.11, printf family replaced by its C11 length contract',
+    text='Bounded proof with CBMC that add_double / add_complex of vnacal_save.c never write beyond their buffer for EVERY precision the setters accept '
+         '(1..VNACAL_MAX_PRECISION, symbolic) and every value, using the C11 maximum output length of %.*e / %+.*e / %+a as the contract of the printf family. '
+         'Only this clause of C07 is claimed: the structural save->load round trip through the YAML document object and libyaml itself are outside.',
+    note='Trusted: clang, ll2c, CBMC, the length-contract stubs in harness/C07_format.c. NOT covered: term placement through save/load (C07.b of the design was not built), '
+         'libyaml emitter/parser, digit exactness, legacy versions.',
+    design='DESIGN.md section 4 / C07'),
+ 'C11': dict(
+    technique='bounded symbolic model checking with CBMC 6.11 of _vnaerr_verror (all categories/errno/callback/vasprintf outcomes symbolic) plus the refused=>unchanged / callback-count / index-honoured assertions of the vnadata, convert, slot-table and range harnesses',
+    text='Bounded proof with CBMC: (C11.a) for every category, incoming errno, callback presence and vasprintf outcome, _vnaerr_verror leaves the documented errno and calls the error '
+         'function exactly once (never when NULL); (C11.b-d) re-runs, under this property, the obligations of C15 / C05 / C16 / C10 that assert: a refused call returns the failure value with '
+         'EINVAL/ENOENT and exactly one callback (none for the documented silent queries), leaves every getter unchanged, and that the index returned by vnacal_add_calibration is the one find/get_name honour.',
+    note='Trusted: as C15/C05/C16/C10. Not every API function x validity class is covered: only those reached by these harnesses; I/O failures from the OS are outside.',
+    design='DESIGN.md section 4 / C11'),
  'C10': dict(
     technique='bounded symbolic model checking of the real range tests and interpolation kernels: clang-14 IR -> ll2c -> CBMC 6.11, IEEE-754 bit-precise comparisons (multiply/divide uninterpreted where stated)',
     text='Bounded proof with CBMC over the real code: (C10.a) the four range tests (check_single_frequency_range, vnacal_new_set_m_error, vnacal_get_parameter_value, '
